@@ -68,11 +68,12 @@ def gh(index, rep):
             obj = Obj(cls, {"ADD_OUTDOOR_GROWING": True, "NMONTHS": Rat.atom("N"), "KCALS_GROWN": Path(("grown",)),
                             "NO_RELOCATION_KCALS_GROWN": Path(("grown_norel",)), "CROP_WASTE_DISTRIBUTION": Rat.atom(("Wd",)),
                             "OG_FRACTION_FAT": Rat.atom(("ff",)), "OG_FRACTION_PROTEIN": Rat.atom(("fp",))}, "self")
-            env = {"self": obj, "constants_for_params": Path(("c",)), "greenhouse_fraction_area": gfa}
+            P_ = [a.arg for a in fn.args.args]
+            env = {P_[0]: obj, P_[1]: Path(("c",)), P_[2]: gfa}
             # evaluate up to (not including) the statement that builds the production Food object
             upto = next((i for i, st in enumerate(fn.body) if any(isinstance(c, ast.Call) and dotted(c.func) == "Food" for c in ast.walk(st))), 1)
             it.exec_block([st for st in fn.body[:upto] if not (isinstance(st, ast.Expr) and isinstance(st.value, ast.Constant))], env)
-            return env.get("crops_produced")
+            return env.get(c08.produced_var(fn))
 
         try:
             envs = explore(runit, month_classes=False)
@@ -144,7 +145,7 @@ def expanded_area(index, rep, fn, rule):
     it = Interp()
     it.path_alias = alias
     it.call_hook = np_hook
-    env = {"self": Obj(None, {"NMONTHS": Rat.atom("N"), "KCALS_GROWN": Path(("grown",))}, "self"), "constants_for_params": Path(("c",))}
+    env = {"self": Obj(None, {"NMONTHS": Rat.atom("N"), "KCALS_GROWN": Path(("grown",))}, "self"), fn.args.args[1].arg: Path(("c",))}
     arrays = {}
     stores = []
     INF = float("inf")
